@@ -140,4 +140,75 @@ theorem under_get {env : Env} {a : Kvs} {cls p : String} {t : List (String × St
   rw [getPath_cons_of hp]
   exact mk_get hsub (by rw [keys_place]; exact hnd) (mem_place hfn)
 
+/-! ### a concrete environment for the non-vacuity examples of Props/C20 -/
+
+def nullNode (ks : List String) : Cfg := .node (ks.map (fun k => (k, cnull)))
+
+/-- a small class-default environment with the real field names (values are irrelevant to the
+theorems; only validated fields need sensible values, and those come from the arguments) -/
+def exCls : String → Cfg
+  | "DataLoaderConfig" => nullNode ["batch_size", "shuffle", "num_workers"]
+  | "ModelCkptConfig" => nullNode ["save_top_k", "save_last"]
+  | "WandBConfig" => nullNode ["entity", "project", "name", "api_key", "wandb_mode", "prv_runid", "group"]
+  | "OptimizerConfig" => nullNode ["lr", "amsgrad"]
+  | "EarlyStoppingConfig" => nullNode ["min_delta", "patience", "stop_training_on_plateau"]
+  | "LRSchedulerConfig" => nullNode ["step_lr", "reduce_lr_on_plateau"]
+  | "StepLRConfig" => .node [("step_size", .leaf (.int 10)), ("gamma", fl (mkRat 1 10))]
+  | "TrainerConfig" => nullNode ["train_data_loader", "val_data_loader", "model_ckpt", "trainer_devices",
+      "trainer_accelerator", "profiler", "trainer_strategy", "enable_progress_bar", "steps_per_epoch",
+      "max_epochs", "seed", "use_wandb", "save_ckpt", "save_ckpt_path", "resume_ckpt_path", "wandb",
+      "optimizer_name", "optimizer", "lr_scheduler", "early_stopping"]
+  | "PreprocessingConfig" => nullNode ["is_rgb", "max_height", "max_width", "scale", "crop_hw", "min_crop_size"]
+  | "DataConfig" => nullNode ["train_labels_path", "val_labels_path", "test_file_path", "provider",
+      "user_instances_only", "data_pipeline_fw", "np_chunks_path", "litdata_chunks_path",
+      "use_existing_chunks", "chunk_size", "delete_chunks_after_training", "preprocessing",
+      "use_augmentations_train", "augmentation_config", "skeletons"]
+  | "IntensityConfig" => .node [("uniform_noise_p", fl 0), ("gaussian_noise_p", fl 0), ("contrast_p", fl 0),
+      ("brightness_p", fl 0)]
+  | "GeometricConfig" => .node [("rotation", fl 15), ("scale", pair d09 d11), ("translate_width", fl d02),
+      ("translate_height", fl d02), ("affine_p", fl 0), ("erase_p", fl 0), ("mixup_p", fl 0)]
+  | "AugmentationConfig" => .node
+      [("intensity", .node [("uniform_noise_p", fl 0), ("gaussian_noise_p", fl 0), ("contrast_p", fl 0),
+          ("brightness_p", fl 0)]),
+       ("geometric", .node [("rotation", fl 15), ("scale", pair d09 d11), ("translate_width", fl d02),
+          ("translate_height", fl d02), ("affine_p", fl 0), ("erase_p", fl 0), ("mixup_p", fl 0)])]
+  | "ModelConfig" => nullNode ["init_weights", "pre_trained_weights", "pretrained_backbone_weights",
+      "pretrained_head_weights", "backbone_config", "head_configs", "total_params"]
+  | "BackboneConfig" => nullNode ["unet", "convnext", "swint"]
+  | "HeadConfig" => nullNode ["single_instance", "centroid", "centered_instance", "bottomup"]
+  | "UNetConfig" => .node [("filters", .leaf (.int 32)), ("max_stride", .leaf (.int 16))]
+  | "ConvNextConfig" => .node [("model_type", cstr "tiny"), ("max_stride", .leaf (.int 16))]
+  | "CentroidConfig" => .node [("confmaps", .node [("anchor_part", cnull), ("sigma", fl 5)])]
+  | "CentroidConfMapsConfig" => .node [("anchor_part", cnull), ("sigma", fl 5)]
+  | _ => cnull
+
+def exEnv : Env := ⟨exCls, fun a b => a = b⟩
+
+def exTrainerArgs : Kvs :=
+  [("batch_size", .leaf (.int 4)), ("learning_rate", fl (mkRat 1 1000)), ("optimizer", cstr "Adam"),
+   ("trainer_num_devices", cstr "auto"), ("early_stopping_min_delta", fl 0),
+   ("early_stopping_patience", .leaf (.int 1)), ("lr_scheduler", .node [("step_lr", .node [("step_size", .leaf (.int 5))])])]
+def exDataArgs : Kvs :=
+  [("train_labels_path", cstr "t.slp"), ("val_labels_path", cstr "v.slp"), ("scale", fl 1),
+   ("use_augmentations_train", cbool true), ("intensity_aug", cstr "contrast"),
+   ("geometry_aug", .leaf (.list [.str "scale", .str "rotation"]))]
+def exModelArgs : Kvs :=
+  [("init_weight", cstr "default"), ("backbone_config", .node [("unet", .node [("filters", .leaf (.int 8))])]),
+   ("head_configs", .node [("centroid", .node [("confmaps", .node [("sigma", fl 2)])])])]
+
+
+def isFl (q : Rat) : Option Cfg → Bool
+  | some (.leaf (.num x)) => x == q
+  | _ => false
+def isInt (i : Int) : Option Cfg → Bool
+  | some (.leaf (.int x)) => x == i
+  | _ => false
+def isNullOpt : Option Cfg → Bool
+  | some c => c.isNull
+  | none => false
+def pathOf (r : Except String Cfg) (p : List String) : Option Cfg :=
+  match r with
+  | .ok c => getPath p c
+  | .error _ => none
+
 end SleapVerif.Config
